@@ -89,7 +89,11 @@ def compare_op(
         if eo.get("ctx") != ro.get("ctx"):
             out.append(mm("fctx", ro.get("ctx"), eo.get("ctx")))
     elif kind == "cli":
-        for f in ("stdout", "exit", "files"):
+        argv = op.get("argv", [])
+        # `print` and `regex` are history only (DESIGN §2.4): what they print is not a result the
+        # property names; their exit status is still compared
+        fields = ("exit",) if argv[:1] in (["print"], ["regex"]) else ("stdout", "exit", "files")
+        for f in fields:
             if eo.get(f) != ro.get(f):
                 out.append(mm(f, ro.get(f), eo.get(f)))
     elif kind == "group":
